@@ -56,8 +56,12 @@ AllActsOf(st) ==
             ELSE {})
        \* room: the slices handed to the constructor have capacity left behind their length (a builder that reuses buffers;
        \* with the empty value: New<Kind>Flat(l, buf[:0], ends[:0])) - the object owns that room from then on
-       \cup {[op |-> "newflat", to |-> t, v |-> v, rep |-> Deflate(k, v), room |-> FALSE] : t \in Targets(st), v \in SetVals(k, s)}
-       \cup {[op |-> "newflat", to |-> t, v |-> v, rep |-> Deflate(k, v), room |-> TRUE] : t \in Targets(st), v \in SetVals(k, s) \cup {EmptyVal(k)}}
+       \cup {[op |-> "newflat", to |-> t, v |-> v, rep |-> Deflate(k, v), room |-> FALSE, nilends |-> FALSE] : t \in Targets(st), v \in SetVals(k, s)}
+       \cup {[op |-> "newflat", to |-> t, v |-> v, rep |-> Deflate(k, v), room |-> TRUE, nilends |-> FALSE] : t \in Targets(st), v \in SetVals(k, s) \cup {EmptyVal(k)}}
+       \* nilends: a MultiPoint without EMPTY members built with the ends OPTION present but nil (generic code that forwards the
+       \* Ends() of a geometry that has none): the same value as without the option
+       \cup (IF k = "MPT" THEN {[op |-> "newflat", to |-> t, v |-> v, rep |-> Deflate(k, v), room |-> FALSE, nilends |-> TRUE] :
+                                  t \in Targets(st), v \in {w \in SetVals(k, s) : \A i \in DOMAIN w : w[i] # NIL}} ELSE {})
 
 ActsOf(st) == {a \in AllActsOf(st) : a.op \in OpsUsed}
 
